@@ -42,6 +42,11 @@ REPARAMS = {
 }
 
 
+# sums of models: the SLDs of every term (scalar ones and the elements of vector SLDs, in either order of the terms) carry
+# their own magnetisation
+COMPOSITES = ["core_multi_shell+sphere", "sphere+core_multi_shell", "core_shell_cylinder+onion"]
+
+
 def _register_reparams():
     from sasmodels import core as sascore
     for nm, (base, new, text) in REPARAMS.items():
@@ -64,6 +69,9 @@ def gen_cases(tier, seed):
     for m in REPARAMS:
         for k in range(n):
             cases.append({"id": "%s/%03d" % (m, k), "model": m, "k": k, "seed": seed, "group": m, "lane": "plain"})
+    for m in COMPOSITES:
+        for k in range(n):
+            cases.append({"id": "%s/%03d" % (m, k), "model": m, "k": k, "seed": seed, "group": m, "lane": "plain", "cost": 3})
     for m in (["sphere", "core_shell_cylinder", "core_multi_shell", "parallelepiped"] if tier == "quick" else mm):
         cases.append({"id": "asan/" + m, "model": m, "k": 5, "seed": seed + 1, "group": "asan-" + m, "lane": "asan", "cost": 4})
     return cases
@@ -103,7 +111,7 @@ def run_case(case, rec):
     if k % 4 == 3:
         # a size mesh of more than 100 points: the compiled kernel is re-entered with its running sums
         sizes = [p for p in sas.usable_pd(i, pars, "2d") if p.type == "volume"]
-        if sizes and sas.eval_cost(i, "2d") < 5e-4:
+        if sizes and name not in COMPOSITES and sas.eval_cost(i, "2d") < 5e-4:
             p = sizes[int(rng.integers(len(sizes)))]
             lo, hi = p.limits
             v = pars[p.name]
@@ -127,6 +135,13 @@ def run_case(case, rec):
         rec.bucket("magnetic_slds:all")
     else:
         mags = [s for s in slds if rng.random() < 0.5] or [slds[0]]
+    if name in COMPOSITES:
+        # every term of the sum is magnetic (a term without magnetisation is evaluated as a non-magnetic model)
+        for pre in ("A_", "B_"):
+            own = [s_ for s_ in slds if s_.startswith(pre)]
+            if own and not any(s_ in mags for s_ in own):
+                mags.append(own[int(rng.integers(len(own)))])
+        rec.bucket("sum-of-models")
     if any(s[-1].isdigit() for s in mags):
         rec.bucket("vector_sld")
     M = {}
@@ -157,6 +172,12 @@ def run_case(case, rec):
     else:
         ut, up = float(rng.uniform(5, 175)), float(rng.uniform(5, 175))
         rec.bucket("axis:tilted")
+    if (k + len(name)) % 8 == 7:
+        # polarisation axis exactly along the beam (up_theta 0, the edge of its declared range) or exactly against it,
+        # with weight in every channel
+        ut, up = float([0.0, 180.0, 0.0, 360.0][(k//8 + len(name)) % 4]), float(rng.uniform(0, 180))
+        ui, uf = float(rng.uniform(0.2, 0.8)), float(rng.uniform(0.2, 0.8))
+        rec.bucket("axis:along-the-beam")
     if k % 6 == 5 or (k % 6 == 2 and len(mags) > 1):
         # a saturated sample: every magnetisation exactly along (or exactly against) the polarisation axis, with both
         # spin-flip and non-spin-flip weight
@@ -235,7 +256,8 @@ def run_case(case, rec):
     if k % 3 == 0 and not any(kk.endswith("_pd_n") for kk in pars):
         # the SasView-style model object on the same 2-D request
         from sasmodels import sasview_model
-        m_ = (sasview_model.make_model_from_info(i) if name in REPARAMS else sasview_model._make_standard_model(name))()
+        m_ = (sasview_model.make_model_from_info(i) if (name in REPARAMS or name in COMPOSITES)
+              else sasview_model._make_standard_model(name))()
         for kk, vv in mpars.items():
             m_.setParam(kk, vv)
         m_.cutoff = cutoff
@@ -245,7 +267,7 @@ def run_case(case, rec):
                   None if oksv else dict(ctx, entry="SasviewModel.evalDistribution([qx, qy])", observed=Isv, expected=exp,
                                          from_call_kernel=I, max_rel_err=core.maxrel(Isv, exp)))
         rec.bucket("entry:sasview")
-    if k % 2 == 0:
+    if k % 2 == 0 and name not in COMPOSITES:       # (sums of models do not offer the amplitude entry)
         _F1, F2, _R, Vs, _ratio = direct_model.call_Fq(kernel, dict(mpars), cutoff=cutoff)
         Ifq = scale*np.asarray(F2, float)/float(Vs) + bg
         okf = bool(np.all(np.abs(Ifq - exp) <= 1e-9*np.abs(exp) + scale*slack + 1e-300))
